@@ -82,9 +82,26 @@ impl Signer for Declining {
     fn is_interactive(&self) -> bool { true }
 }
 
+/// a signer that panics inside the request (a callback may unwind through the library)
+struct Panicking;
+impl Signer for Panicking {
+    fn try_pubkey(&self) -> Result<Pubkey, SignerError> { Ok(Pubkey::default()) }
+    fn try_sign_message(&self, _message: &[u8]) -> Result<Signature, SignerError> { panic!("signer failed") }
+    fn is_interactive(&self) -> bool { false }
+}
+
 /// every signer-based route asked of a declining signer: all must fail, and leave nothing behind
 fn declined_requests(seed: &[u8]) -> bool {
     let other: Vec<u8> = seed.iter().rev().cloned().chain([0x5au8; 9]).collect();
+    // a panic raised by the signer passes through (or is reported as an error) and leaves nothing behind either
+    for _ in 0..2 {
+        let o2 = other.clone();
+        let _ = std::panic::catch_unwind(std::panic::AssertUnwindSafe(|| { let _ = ElGamalKeypair::new_from_signer(&Panicking, &o2); }));
+        let o2 = other.clone();
+        let _ = std::panic::catch_unwind(std::panic::AssertUnwindSafe(|| { let _ = ElGamalSecretKey::seed_from_signer(&Panicking, &o2); }));
+        let o2 = other.clone();
+        let _ = std::panic::catch_unwind(std::panic::AssertUnwindSafe(|| { let _ = AeKey::new_from_signer(&Panicking, &o2); }));
+    }
     ElGamalKeypair::new_from_signer(&Declining, &other).is_err()
         && ElGamalSecretKey::new_from_signer(&Declining, &other).is_err()
         && ElGamalSecretKey::seed_from_signer(&Declining, &other).is_err()
